@@ -91,3 +91,10 @@ Ltac arith_leaf := first [ reflexivity | exfalso; bool_hyps; try subst; lia | bo
 
 (* two boolean expressions that say the same thing in different words *)
 Ltac bool_eq := first [ reflexivity | match goal with |- ?a = ?b => destruct a eqn:?; destruct b eqn:?; arith_leaf end ].
+
+(* decide one equality test between naturals in the goal; the mirrored test (b =? a) is decided along with it *)
+Ltac split_eqb_on a b :=
+  let E := fresh "E" in
+  destruct (Nat.eqb_spec a b) as [E|E];
+  [ try rewrite (proj2 (Nat.eqb_eq b a) (eq_sym E)) | try rewrite (proj2 (Nat.eqb_neq b a) (not_eq_sym E)) ].
+Ltac split_eqb := match goal with |- context [Nat.eqb ?a ?b] => split_eqb_on a b end.
